@@ -221,3 +221,41 @@ func c16accounting(c *Ctx, pkg string) {
 		r.Check(okAll, "PATH", fkey(fn)+"/workload-filter-unless-both-skipped", c.Pos(fn.Pos()), "registered unless both workload gates are skipped", sprintf("the per-workload filter is dropped as soon as one of its two gates is skipped (gate calls found: migrating=%d unavailable=%d): the other workload budget is no longer enforced", len(mig), len(unav)))
 	}
 }
+
+// c16visitors: a counting visitor sees every job.
+func c16visitors(c *Ctx, pkg string) {
+	r := c.R
+	r.Decides("the visitors the four limit filters hand to forEachAvailableMigrationJobs return true on every path (false means 'stop iterating': a counting visitor that stops early - e.g. on a failed Get of one job's pod - leaves the later jobs out of the count, and the budget is overrun)")
+	r.Rule("COUNT(visit all): in filterMaxMigratingGlobally / PerNode / PerNamespace / OrUnavailablePerWorkload every function literal passed as handler to forEachAvailableMigrationJobs has only 'return true' exits")
+	n := 0
+	for _, name := range []string{"filterMaxMigratingGlobally", "filterMaxMigratingPerNode", "filterMaxMigratingPerNamespace", "filterMaxMigratingOrUnavailablePerWorkload"} {
+		fn := c.Fn(pkg, "filter", name)
+		if fn == nil {
+			continue
+		}
+		nIn := 0
+		for _, cl := range an.Calls(fn, false) {
+			if an.ShortCallee(cl.Common()) != "forEachAvailableMigrationJobs" {
+				continue
+			}
+			mc, ok := cl.Common().Args[2].(*ssa.MakeClosure)
+			if !ok {
+				continue
+			}
+			clo, _ := mc.Fn.(*ssa.Function)
+			if clo == nil {
+				continue
+			}
+			n++
+			nIn++
+			bad := ""
+			for _, alt := range an.ReturnAlts(clo) {
+				if !isTrueConst(alt.Results[0]) {
+					bad = c.InstrPos(alt.Ret)
+				}
+			}
+			r.Check(bad == "", "COUNT", sprintf("%s/visitor#%d", fkey(fn), nIn), c.InstrPos(cl), "the visitor never stops the iteration", "the counting visitor can return something else than true (at "+bad+"): the iteration stops there and the jobs listed after it are not counted against the limit")
+		}
+	}
+	r.Floor("COUNT", "counting visitors", n, 3)
+}
